@@ -273,10 +273,12 @@ NoCmdBeforeTLS ==
 TlsOnlyByHandshake ==
   (IsCmd /\ tls /\ ~last.pre.tls) => Op = "IDENTIFY_TLS" /\ policy.tlscfg /\ CertOK(policy, last.c.cert)
 
-\* plaintext HTTP is refused with 403 exactly when TLS is required for everything; a refusal has no effect
+\* when TLS is required plaintext HTTP is refused with 403 -- except in tcp-https mode, where it is served;
+\* a refusal has no effect
 PlainHttpRefused ==
   (last.kind = "http" /\ last.c.t = "http") =>
-     /\ (EffTLS(policy) = "yes" <=> last.status = 403)
+     /\ (EffTLS(policy) = "yes" => last.status = 403)
+     /\ (EffTLS(policy) = "http" => last.status # 403)
      /\ (last.status = 403 => EffectsSame)
 HttpsNeedsCert ==
   (last.kind = "http" /\ last.c.t = "https" /\ last.status = 200) => policy.tlscfg /\ CertOK(policy, last.c.cert)
@@ -326,6 +328,8 @@ QueryCountLaw ==
   nq = Cardinality({i \in 1..Len(hist) : hist[i].s.c.op = "AUTH" /\ hist[i].s.o.queried})
      + Cardinality({i \in 1..Len(hist) : /\ Gated(hist[i].s.c.op) /\ hist[i].s.o.check # "n/a"
                                           /\ hist[i].s.pre.authed /\ hist[i].s.pre.exp < hist[i].s.pre.now})
+\* nothing is refused on the plaintext port when TLS is not required at all
+PlainHttpServed == (last.kind = "http" /\ last.c.t = "http" /\ EffTLS(policy) = "no") => last.status = 200
 \* the code's evaluation of an answer never allows what the answer does not grant
 CodeStricter == \A t \in Topics, c \in Channels \cup {""} : CodeAllows(grants, t, c) => Granted(grants, t, c)
 \* the lattice keeps every comparison away from the expiry instant
@@ -344,6 +348,7 @@ TypeOK == /\ ValidPolicy(policy)
           /\ (tls => policy.tlscfg)
           /\ (st \in {"subscribed", "closing"} => chans # {})
 
-\* exhaustive configs hide the history (states, not behaviours, are what matters there)
-View == <<svars, last>>
+\* exhaustive configs hide the history's content (states, not behaviours, are what matters there) but keep its
+\* length: Cmd is guarded by it, and a view must not merge states with different futures
+View == <<svars, last, Len(hist)>>
 ===========================================================================
